@@ -19,11 +19,16 @@ import c12 as base
 
 COPY = "copy"
 COPY_PY = "c = Unit(sympy.Symbol('s'), registry=r).copy().registry"
+# the everyday route to such an object: a quantity that already is in base units, converted to base units
+# (Unit.get_base_equivalent returns self.copy()); the strings 'm' and 's' land in the string cache on the way
+COPY2 = "copy_in_base"
+COPY2_PY = "c = (unyt_quantity(6000.0, 'm', registry=r) / unyt_quantity(1.0, 's', registry=r)).in_base().units.registry"
+COPIES = {COPY: COPY_PY, COPY2: COPY2_PY}
 # ops of the main alphabet that are single machine steps (no macro), usable through either object
 EXH_OPS = ["add_foo1", "modf_foo", "rm_foo", "u_kfoo", "has_Mfoo", "u_foo_s"]
-RND_OPS = EXH_OPS + ["add_foo2", "modi_foo", "add_kfoo", "modf_kfoo", "rm_kfoo", "u_foo", "sysid"]
+RND_OPS = EXH_OPS + ["add_foo2", "modi_foo", "add_kfoo", "modf_kfoo", "rm_kfoo", "u_foo", "sysid", "modq_foo", "modq2_foo", "def_zot"]
 PROBES = [("unit", "foo"), ("unit", "kfoo"), ("unit", "Mfoo"), ("unit", "foo*s"), ("unit", "kfoo/s"),
-          ("has", "foo"), ("has", "kfoo"), ("get", "kfoo")]
+          ("unit", "zot"), ("unit", "kzot"), ("has", "foo"), ("has", "kfoo"), ("get", "kfoo")]
 OBJ_NAME = {"r": "original", "c": "copy"}
 
 
@@ -35,22 +40,30 @@ def py_of(name, obj):
 def model_of(name, obj):
     line = base.OPS[name]["model"]
     assert line.startswith("c12.")
-    return f"c12a.call\t{0 if obj == 'r' else 1}\t" + line[4:]
+    i = 0 if obj == "r" else 1
+    for macro in ("modqu", "defunit"):  # the reading edits: `amstep` (RegistryC12AliasMacro)
+        if line.startswith(f"c12.{macro}\t"):
+            return f"c12a.{macro}\t{i}\t" + line[len(macro) + 5:]
+    return f"c12a.call\t{i}\t" + line[4:]
+
+
+def copy_pos(hist):
+    return next(i for i, op in enumerate(hist) if op in COPIES)
 
 
 def valid(hist):
     """exactly one `copy`; no call through `c` before it"""
-    if [op for op in hist if op == COPY] != [COPY]:
+    if len([op for op in hist if op in COPIES]) != 1:
         return False
-    p = hist.index(COPY)
+    p = copy_pos(hist)
     return all(op[1] == "r" for op in hist[:p])
 
 
 def hist_src(hist):
     lines = ["import sympy", "r = UnitRegistry()"]
     for op in hist:
-        if op == COPY:
-            lines.append(COPY_PY + "\nassert c is not r and c.lut is r.lut")
+        if op in COPIES:
+            lines.append(COPIES[op] + "\nassert c is not r and c.lut is r.lut")
         else:
             lines.append(f"t(lambda: {py_of(*op)})")
     return "\n".join(lines) + "\n"
@@ -84,8 +97,8 @@ def run_history(hist):
     flat = []
     outs, failures = [], []
     for idx, op in enumerate(hist):
-        if op == COPY:
-            env["c"] = Unit(sympy.Symbol("s"), registry=r).copy().registry
+        if op in COPIES:
+            exec(COPIES[op], env)
             outs.append(("copy", env["c"] is not r and env["c"].lut is r.lut))
             continue
         name, obj = op
@@ -155,7 +168,7 @@ def run_history(hist):
 def model_lines(hist):
     lines = ["c12a.reset"]
     for op in hist:
-        lines.append("c12a.copy\t0" if op == COPY else model_of(*op))
+        lines.append("c12a.copy\t0" if op in COPIES else model_of(*op))
     return lines
 
 
@@ -170,7 +183,7 @@ def correspond(hist, res, replies):
     next(it)
     for op, out in zip(hist, res["outs"]):
         rep = next(it)
-        if op == COPY:
+        if op in COPIES:
             if rep[0] != "ok" or not out[1]:
                 dis.append(f"copy: impl shares the table: {out[1]}, model {rep}")
             continue
@@ -252,7 +265,7 @@ def histories(tier, rng):
         h = []
         for i in range(n):
             if i == p:
-                h.append(COPY)
+                h.append(COPY if rng.random() < 0.5 else COPY2)
             h.append((rng.choice(RND_OPS), "r" if i < p else rng.choice("rc")))
         if rng.random() < 0.5:
             h.insert(0, ("add_foo1", "r"))
@@ -297,7 +310,8 @@ def run_alias(chk, tier, ptab, known):
         for h, failures, dis in part:
             chk.case(("alias",) + tuple(h), {"alias_history": [list(x) if isinstance(x, tuple) else x for x in h]} if len(h) == 4 and len(chk.samples) < 8 else None)
             chk.count("alias-history")
-            chk.count("alias-copy-at-" + str(min(h.index(COPY), 3)))
+            chk.count("alias-copy-at-" + str(min(copy_pos(h), 3)))
+            chk.count("alias-copy-route:" + ("Unit.copy" if COPY in h else "in_base"))
             for d in dis[:3]:
                 chk.disagree("c12a.history", f"{h}: {d}")
             for f in failures:
